@@ -141,10 +141,13 @@ def _sanitizer_verdict(text):
     blocks = [b for b in text.split("\n\n") if ("Undefined Behavior" in b or "data race" in b.lower() or "deadlock" in b.lower())]
     if not blocks:
         return None, None
+    def trim(b):
+        k = b.find("error:")
+        return (b[k:] if k >= 0 else b).replace("\n", " | ")
     for b in blocks:
         if "/crates/" in b or "vh-lock" in b or "vh-mini" in b:
-            return "violation", b[:600]
-    return "inconclusive", blocks[0][:400]
+            return "violation", trim(b)[:700]
+    return "inconclusive", trim(blocks[0])[:400]
 
 
 def stage_lock_miri(stage, prop, tier, seed, workdir, build, env, log):
